@@ -1,4 +1,4 @@
-import GrpcProofs.Lemmas.ClusterRefs
+import GrpcProofs.Lemmas.ClusterRefs2
 /-!
 # C51  A cluster stays usable until every RPC routed to it is committed
 
@@ -86,5 +86,21 @@ theorem dropped_after_last_reference_counterexample :
   have := h (witness ++ [.commit 2, .deliver])
   revert this
   decide
+
+/-- Clause 3, PARTIAL (full statement: `∀ ops, quiescent (run ops) → dropped (run ops)`, refuted above):
+    in every run in which no clusterInfo whose unsubscribe was already used is re-referenced
+    (`reusedSpent = false`, a ghost flag set by `acquireCS`), whenever nothing is pending — no queued
+    update, no uncommitted RPC — the service config lists only clusters of the current routes.
+    So the re-reference of a spent clusterInfo is the only way clause 3 can fail in the model. -/
+theorem dropped_after_last_reference_partial (ops : List Op) (hr : (run ops).reusedSpent = false)
+    (hq : quiescent (run ops) = true) : dropped (run ops) = true :=
+  dropped_of_not_reused ops hr hq
+
+/-- non-vacuity of the partial statement: a run with removals, overlapping RPCs and a re-added
+    cluster that ends quiescent without any spent re-reference -/
+example :
+    let s := run [.rds [1, 2], .deliver, .select 1 1, .select 2 2, .rds [3], .deliver, .commit 1, .deliver,
+                  .rds [1, 3], .deliver, .commit 2, .deliver, .deliver]
+    s.reusedSpent = false ∧ quiescent s = true ∧ s.pushedSC = [3, 1] := by decide
 
 end GrpcProofs.C51
